@@ -1326,6 +1326,20 @@ func (e *Engine) modSetBlocksB(st *State, fn *ssa.Function, blocks map[*ssa.Basi
 				} else {
 					return e.modAll(fn, in)
 				}
+			case *ssa.Send:
+				add("S:chan_sent")
+			case *ssa.Select:
+				for _, ss := range x.States {
+					if ss.Dir == types.RecvOnly {
+						add("S:chan_recvd")
+					} else {
+						add("S:chan_sent")
+					}
+				}
+			case *ssa.UnOp:
+				if x.Op == token.ARROW {
+					add("S:chan_recvd")
+				}
 			case *ssa.MapUpdate:
 				mt := x.Map.Type().Underlying().(*types.Map)
 				base := shortenType(typeKey(mt.Key())) + ":" + shortenType(typeKey(mt.Elem()))
